@@ -3,7 +3,8 @@ EXTENDS Codec, Json
 Trace == ndJsonDeserialize("trace.ndjson")
 VARIABLES l, nrej
 Reasons(e) == CASE e.ev = "Label" -> LabelReasons(e) [] e.ev = "Decode" -> DecodeReasons(e)
-                [] e.ev = "RoundTrip" -> RoundTripReasons(e) [] e.ev = "Listing" -> ListingReasons(e) [] OTHER -> {}
+                [] e.ev = "RoundTrip" -> RoundTripReasons(e) [] e.ev = "Listing" -> ListingReasons(e)
+                [] e.ev = "CliOut" -> CliOutReasons(e) [] OTHER -> {}
 TraceInit == l = 1 /\ nrej = 0
 Step == /\ l <= Len(Trace)
         /\ LET r == Reasons(Trace[l]) IN IF r = {} THEN nrej' = nrej ELSE PrintT(<<"REJECT", l, r>>) /\ nrej' = nrej + 1
